@@ -1057,9 +1057,187 @@ fn payment_restart_probe(_a: &mut Vec<i128>) -> String {
 	verdict
 }
 
-/// payment_outcome_battery: scenarios 1-5 of payment_outcome_probe, mpp_outcome_probe and payment_restart_probe. Output: `<scenarios that failed or panicked> <scenarios run>`.
+/// bolt12_restart_probe: a payer that handles BOLT 12 invoices manually persists its ChannelManager after the
+/// InvoiceReceived event (payment known, nothing sent yet), pays the invoice (the HTLC is committed in the
+/// ChannelMonitor) and restarts from that older ChannelManager and the latest ChannelMonitor. The HTLC is in flight, so
+/// after the restart the payment must be listed as pending and paying the invoice again must be refused, and no
+/// terminal event may appear. Output: `1` / `0 <what>`.
+#[allow(deprecated)]
+fn bolt12_restart_probe(_a: &mut Vec<i128>) -> String {
+	use lightning::blinded_path::payment::DummyTlvs;
+	use lightning::routing::router::DEFAULT_PAYMENT_DUMMY_HOPS;
+	use lightning::events::{ClosureReason, Event};
+	use lightning::ln::channelmanager::{PaymentId, RecentPaymentDetails};
+	use lightning::ln::outbound_payment::Bolt12PaymentError;
+	use lightning::ln::msgs::OnionMessageHandler;
+	use lightning::util::ser::Writeable;
+	let mut manually_pay_cfg = test_legacy_channel_config();
+	manually_pay_cfg.manually_handle_bolt12_invoices = true;
+	let chanmon_cfgs = create_chanmon_cfgs(2);
+	let node_cfgs = create_node_cfgs(2, &chanmon_cfgs);
+	let persister;
+	let chain_monitor;
+	let node_chanmgrs = create_node_chanmgrs(2, &node_cfgs, &[Some(test_legacy_channel_config()), Some(manually_pay_cfg.clone())]);
+	let bob_deserialized;
+	let mut nodes = create_network(2, &node_cfgs, &node_chanmgrs);
+	let chan_id = create_announced_chan_between_nodes_with_value(&nodes, 0, 1, 10_000_000, 1_000_000_000).2;
+	let alice_id = nodes[0].node.get_our_node_id();
+	let bob_id = nodes[1].node.get_our_node_id();
+	let amt_msat = 10_000_000;
+	let offer = nodes[0].node.create_offer_builder().unwrap().amount_msats(amt_msat).build().unwrap();
+	let payment_id = PaymentId([1; 32]);
+	nodes[1].node.pay_for_offer(&offer, None, payment_id, Default::default()).unwrap();
+	let onion_message = nodes[1].onion_messenger.next_onion_message_for_peer(alice_id).unwrap();
+	nodes[0].onion_messenger.handle_onion_message(bob_id, &onion_message);
+	let onion_message = nodes[0].onion_messenger.next_onion_message_for_peer(bob_id).unwrap();
+	nodes[1].onion_messenger.handle_onion_message(alice_id, &onion_message);
+	let mut events = nodes[1].node.get_and_clear_pending_events();
+	let (invoice, context) = match events.pop() {
+		Some(Event::InvoiceReceived { invoice, context, .. }) => (invoice, context),
+		_ => return String::from("error no InvoiceReceived event"),
+	};
+	let bob_ser = nodes[1].node.encode();
+	if nodes[1].node.send_payment_for_bolt12_invoice(&invoice, context.as_ref()).is_err() {
+		return String::from("error the invoice could not be paid");
+	}
+	check_added_monitors(&nodes[1], 1);
+	let mut msg_events = nodes[1].node.get_and_clear_pending_msg_events();
+	let ev = remove_first_msg_event_to_node(&alice_id, &mut msg_events);
+	{
+		let path = [&nodes[0]];
+		let dummy = [DummyTlvs::default(); DEFAULT_PAYMENT_DUMMY_HOPS];
+		let args = PassAlongPathArgs::new(&nodes[1], &path, invoice.amount_msats(), invoice.payment_hash(), ev)
+			.without_clearing_recipient_events()
+			.with_dummy_tlvs(&dummy);
+		do_pass_along_path(args);
+	}
+	let monitor = lightning::get_monitor!(nodes[1], chan_id).encode();
+	lightning::reload_node!(nodes[1], manually_pay_cfg, &bob_ser, &[&monitor], persister, chain_monitor, bob_deserialized);
+	check_closed_event(&nodes[1], 1, ClosureReason::OutdatedChannelManager, &[alice_id], 10_000_000);
+	check_added_monitors(&nodes[1], 1);
+	let mut verdict = String::from("1");
+	let listed = nodes[1].node.list_recent_payments();
+	if listed.len() != 1 || !matches!(listed[0], RecentPaymentDetails::Pending { payment_id: id, .. } if id == payment_id) {
+		verdict = String::from("0 an HTLC is in flight after the restart but the payment is not listed as pending");
+	}
+	if verdict == "1" {
+		match nodes[1].node.send_payment_for_bolt12_invoice(&invoice, context.as_ref()) {
+			Err(Bolt12PaymentError::DuplicateInvoice) => {},
+			_ => verdict = String::from("0 the invoice was accepted for payment again while an HTLC is in flight"),
+		}
+	}
+	let events = nodes[1].node.get_and_clear_pending_events();
+	if verdict == "1" && events.iter().any(|e| matches!(e, Event::PaymentFailed { .. } | Event::PaymentSent { .. })) {
+		verdict = String::from("0 terminal event while the HTLC is in flight");
+	}
+	for n in nodes.iter() {
+		n.node.get_and_clear_pending_msg_events();
+		n.node.get_and_clear_pending_events();
+		n.chain_monitor.added_monitors.lock().unwrap().clear();
+		n.tx_broadcaster.txn_broadcast();
+	}
+	core::mem::forget(nodes);
+	verdict
+}
+
+/// mpp_inprogress_probe: two nodes, two channels between them; node 0 sends a two-part payment. The part over the first
+/// channel is committed but its monitor update is still in progress (the HTLC is in flight); the part over the second
+/// channel (no liquidity on our side) fails at once, and the retry finds no route. While the first part is pending the
+/// payer must not report PaymentFailed, must keep listing the payment and must refuse the payment id for a new send.
+/// Output: `1` / `0 <what>`.
+fn mpp_inprogress_probe(_a: &mut Vec<i128>) -> String {
+	use lightning::chain::ChannelMonitorUpdateStatus;
+	use lightning::events::Event;
+	use lightning::ln::channelmanager::PaymentId;
+	use lightning::ln::outbound_payment::{RecipientOnionFields, Retry, RetryableSendFailure};
+	use lightning::routing::router::{Path, PaymentParameters, Route, RouteHop, RouteParameters};
+	use lightning::types::features::Bolt11InvoiceFeatures;
+	let chanmon_cfgs = create_chanmon_cfgs(2);
+	let node_cfgs = create_node_cfgs(2, &chanmon_cfgs);
+	let legacy_cfg = test_legacy_channel_config();
+	let node_chanmgrs = create_node_chanmgrs(2, &node_cfgs, &[Some(legacy_cfg.clone()), Some(legacy_cfg)]);
+	let nodes = create_network(2, &node_cfgs, &node_chanmgrs);
+	let node_b_id = nodes[1].node.get_our_node_id();
+	let chan_1 = create_announced_chan_between_nodes(&nodes, 0, 1);
+	let chan_1_scid = chan_1.0.contents.short_channel_id;
+	let chan_2 = create_announced_chan_between_nodes_with_value(&nodes, 0, 1, 1_000_000, 989_000_000);
+	let chan_2_scid = chan_2.0.contents.short_channel_id;
+	let amt_msat = 10_000_000;
+	let (_, payment_hash, _preimage, payment_secret) = lightning::get_route_and_payment_hash!(&nodes[0], nodes[1], amt_msat);
+	let expiry = std::time::SystemTime::UNIX_EPOCH.elapsed().unwrap().as_secs() + 60 * 60;
+	let mut feats = Bolt11InvoiceFeatures::empty();
+	feats.set_variable_length_onion_required();
+	feats.set_payment_secret_required();
+	feats.set_basic_mpp_optional();
+	let payment_params = PaymentParameters::from_node_id(node_b_id, TEST_FINAL_CLTV).with_expiry_time(expiry).with_bolt11_features(feats).unwrap();
+	let mut route_params = RouteParameters::from_payment_params_and_value(payment_params, amt_msat);
+	route_params.max_total_routing_fee_msat = None;
+	let hop = |scid: u64, amt: u64| RouteHop {
+		pubkey: node_b_id,
+		node_features: nodes[1].node.node_features(),
+		short_channel_id: scid,
+		channel_features: nodes[1].node.channel_features(),
+		fee_msat: amt,
+		cltv_expiry_delta: 100,
+		maybe_announced_channel: true,
+	};
+	let send_route = Route {
+		paths: vec![
+			Path { hops: vec![hop(chan_1_scid, amt_msat / 2)], blinded_tail: None },
+			Path { hops: vec![hop(chan_2_scid, amt_msat / 2)], blinded_tail: None },
+		],
+		route_params: route_params.clone(),
+	};
+	nodes[0].router.expect_find_route(route_params.clone(), Ok(send_route));
+	let mut retry_payment_params = route_params.payment_params.clone();
+	retry_payment_params.previously_failed_channels.push(chan_2_scid);
+	let mut retry_params = RouteParameters::from_payment_params_and_value(retry_payment_params, amt_msat / 2);
+	retry_params.max_total_routing_fee_msat = None;
+	nodes[0].router.expect_find_route(retry_params, Err("no route for the retry"));
+	chanmon_cfgs[0].persister.set_update_ret(ChannelMonitorUpdateStatus::InProgress);
+	let onion = RecipientOnionFields::secret_only(payment_secret, amt_msat);
+	let id = PaymentId(payment_hash.0);
+	nodes[0].node.send_payment(payment_hash, onion.clone(), id, route_params.clone(), Retry::Attempts(1)).unwrap();
+	check_added_monitors(&nodes[0], 1);
+	let mut verdict = String::from("1");
+	if !nodes[0].node.get_and_clear_pending_msg_events().is_empty() {
+		verdict = String::from("0 the HTLC left before its monitor update completed");
+	}
+	let events = nodes[0].node.get_and_clear_pending_events();
+	if events.iter().any(|e| matches!(e, Event::PaymentFailed { .. })) {
+		verdict = String::from("0 PaymentFailed while an HTLC of the payment is still in flight");
+	} else if verdict == "1" && events.iter().filter(|e| matches!(e, Event::PaymentPathFailed { .. })).count() != 1 {
+		verdict = format!("0 {} events for one failed part", events.len());
+	}
+	if verdict == "1" && nodes[0].node.list_recent_payments().len() != 1 {
+		verdict = String::from("0 the payment is no longer tracked although an HTLC is in flight");
+	}
+	if verdict == "1" {
+		match nodes[0].node.send_payment(payment_hash, onion, id, route_params, Retry::Attempts(0)) {
+			Err(RetryableSendFailure::DuplicatePayment) => {},
+			_ => verdict = String::from("0 the payment id was accepted again while an HTLC is in flight"),
+		}
+	}
+	for n in nodes.iter() {
+		n.node.get_and_clear_pending_msg_events();
+		n.node.get_and_clear_pending_events();
+		n.chain_monitor.added_monitors.lock().unwrap().clear();
+	}
+	core::mem::forget(nodes);
+	verdict
+}
+
+/// payment_outcome_battery: scenarios 1-5 of payment_outcome_probe, mpp_outcome_probe, mpp_inprogress_probe, payment_restart_probe and bolt12_restart_probe. Output: `<scenarios that failed or panicked> <scenarios run>`.
 fn payment_outcome_battery(_a: &mut Vec<i128>) -> String {
-	let (mut bad, mut total) = (0u32, 2u32);
+	let (mut bad, mut total) = (0u32, 4u32);
+	match catch_unwind(AssertUnwindSafe(|| bolt12_restart_probe(&mut vec![]))) {
+		Ok(v) if v == "1" => {},
+		_ => bad += 1,
+	}
+	match catch_unwind(AssertUnwindSafe(|| mpp_inprogress_probe(&mut vec![]))) {
+		Ok(v) if v == "1" => {},
+		_ => bad += 1,
+	}
 	match catch_unwind(AssertUnwindSafe(|| mpp_outcome_probe(&mut vec![]))) {
 		Ok(v) if v == "1" => {},
 		_ => bad += 1,
@@ -1187,6 +1365,8 @@ fn main() {
 			"payment_outcome_battery" => payment_outcome_battery(&mut args),
 			"mpp_outcome_probe" => mpp_outcome_probe(&mut args),
 			"payment_restart_probe" => payment_restart_probe(&mut args),
+			"bolt12_restart_probe" => bolt12_restart_probe(&mut args),
+			"mpp_inprogress_probe" => mpp_inprogress_probe(&mut args),
 			"persister_battery" => persister_battery(&mut args),
 			"closing_probe" => closing_probe(&mut args),
 			"prune_probe" => prune_probe(&mut args),
